@@ -40,7 +40,11 @@ fn replay(args: &[String]) -> i32 {
             match lexcase::run(&case) {
                 (lexcase::Outcome::Ok, detail) => {
                     ok += 1;
-                    if detail["parses"].as_bool().unwrap_or(false) {
+                    let nt = match case.get("changed") {
+                        Some(c) => c.as_bool().unwrap_or(false),
+                        None => detail["parses"].as_bool().unwrap_or(false),
+                    };
+                    if nt {
                         nontrivial += 1;
                     }
                     if samples.len() < 5 && total % 9973 == 1 {
@@ -151,6 +155,14 @@ fn main() {
         Some("replay") => replay(&args[2..]),
         Some("drive") => drive_cmd(&args[2..]),
         Some("debug") => debug_cmd(&args[2..]),
+        Some("render1") => {
+            // one command per stdin line -> its source text
+            for line in std::io::stdin().lock().lines() {
+                let c: Value = serde_json::from_str(&line.unwrap()).expect("json");
+                println!("{}", render::command_text(&c));
+            }
+            0
+        }
         Some("render") => {
             // print the source text of every command of every session in a file
             let file = std::fs::File::open(&args[2]).expect("sessions file");
